@@ -87,6 +87,16 @@ func vpH_C09_ok() {
 			}
 		}
 		if !complete {
+			if early, isOK := out.(*ServerOKMsg); sent && isOK && !early.Accepted {
+				for _, x := range rd.replies {
+					if x != nil && !x.Accepted {
+						// a rejection sent as soon as one child has rejected is not excluded by the
+						// statement ("accepting iff every child accepted"); this harness' round
+						// accounting does not follow such an implementation
+						vpUnsupported("a rejecting OK was emitted before every child had replied: early rejection is outside this harness")
+					}
+				}
+			}
 			vpAssertKF(!sent, "C09.no-ok-before-all-children-replied", "C09.same-id-in-flight", anyDup)
 			if sent {
 				emitted++
